@@ -330,7 +330,7 @@ def zoo():
         def check(self, answers, student_input, **kwargs):
             items = student_input if isinstance(student_input, list) else [student_input]
             for s in items:
-                if s == 'boom':
+                if 'boom' in s:
                     raise RuntimeError('internal')
                 if s == 'deep':
                     def rec(n):
@@ -726,6 +726,16 @@ def observe(g, inp, attempt=None, seed=0, tag=None):
     return rec
 
 
+GENERIC_SEP = r"(?:[\s:'\",;&.]|and){0,8}"
+
+
+def names_submission(msg, texts):
+    """the generic error: 'Invalid Input: Could not check input(s)' followed by the submitted text(s) VERBATIM, in order, with
+    nothing but quotes / separators around them (the exact separators are not part of the property)"""
+    pat = 'Invalid Input: Could not check inputs?' + GENERIC_SEP + GENERIC_SEP.join(re.escape(t) for t in texts) + GENERIC_SEP
+    return re.fullmatch(pat, msg, re.S) is not None
+
+
 def judge(mode, credit, attempt, inp, rec):
     """the property, stated on one implementation call (debug off).  Returns None or a description of the violation."""
     from mitxgraders.exceptions import MITxError, StudentFacingError, ConfigError
@@ -764,12 +774,8 @@ def judge(mode, credit, attempt, inp, rec):
     msg = str(val)
     if not msg.startswith('Invalid Input: Could not check input'):
         return 'generic error text is %r' % msg[:200]
-    pos = 0
-    for t in texts:
-        k = msg.find(t, pos)
-        if k < 0:
-            return 'generic error does not name the submitted text %r: %r' % (t[:80], msg[:200])
-        pos = k + len(t)
+    if not names_submission(msg, texts):
+        return 'generic error does not name the submission %r verbatim: %r' % ([t[:80] for t in texts], msg[:300])
     return None
 
 
@@ -840,6 +846,13 @@ ANTICIPATED = [
     ('Echo', 'deep', 'StudentFacingError', GENERIC),
     ('Echo', 'mem', 'StudentFacingError', GENERIC),
     ('Echo', ['list', ['a', 'boom', 'c']], 'StudentFacingError', GENERIC),
+    ('Echo', 'boom x_{1}', 'StudentFacingError', GENERIC),
+    ('Echo', 'boom a_{0}', 'StudentFacingError', GENERIC),
+    ('Echo', 'boom {} %s {0}', 'StudentFacingError', GENERIC),
+    ('Echo', ['list', ['T_{ab}', 'boom {0}']], 'StudentFacingError', GENERIC),
+    ('Brace/matrix-parallel', '(x_{1})||[1,2]', 'StudentFacingError', GENERIC),
+    ('Brace/formula-comparer', 'a_{0}*T_{ab}', 'StudentFacingError', GENERIC),
+    ('Brace/string-regex', '{0.__class__}', 'StudentFacingError', GENERIC),
     ('Formula', '(' * 2500 + '1' + ')' * 2500, 'StudentFacingError', GENERIC),
     # input objects of the wrong kind: refused with a configuration error (the text is not part of the property)
     ('String', ['obj', 'int']) + ('ConfigError', None),
@@ -901,7 +914,119 @@ def anticipated_rows(tier):
     return ANTICIPATED + deep_unbalanced_rows(tier)
 
 
+_BRACE_ZOO = None
+BRACE_VARS = ['x_{1}', 'T_{ab}', 'y']
+META_TEXTS = ['{}', '{0}', '{1}', '{x}', '{0}{1}', '{{}}', '{{0}}', '{!r}', '{:d}', '{0.__class__}', '{0[0]}', '{', '}', '}{', '%s', '%d', '%(a)s',
+              '%', '100%', '%%', '$x', '${x}', '\\', '\\n', '{0!s:>10}', 'x_{1}', 'T_{ab}', 'a_{0}', 'x_{1}*T_{ab}', '{a}_{b}']
+
+
+def brace_zoo():
+    """single-box graders of every class in which an UNANTICIPATED (non-library) failure is reachable with submissions that
+    contain subscripted names x_{1}, T_{ab}, a_{0} and other format-string metacharacters:
+    (name, factory(debug), valid names, wrap: formula-with-braces -> input that reaches the failure)"""
+    global _BRACE_ZOO
+    if _BRACE_ZOO is not None:
+        return _BRACE_ZOO
+    from mitxgraders import (StringGrader, FormulaGrader, NumericalGrader, MatrixGrader, IntervalGrader, SumGrader, SingleListGrader,
+                             IntegralGrader)
+    from mitxgraders.sampling import VariableSamplingSet
+    from voluptuous import Schema
+
+    def bad_comparer(comparer_params_eval, student_eval, utils):
+        raise ValueError('author comparer bug')
+
+    class BadSampler(VariableSamplingSet):
+        schema_config = Schema({})
+
+        def gen_sample(self):
+            raise RuntimeError('author sampling set bug')
+    V = BRACE_VARS
+    F = {'rstr': lambda x: 'text'}
+    bad = {'comparer': bad_comparer, 'comparer_params': ['1']}
+    ident = lambda t: t
+    Z = [
+        ('Brace/formula-comparer', lambda d: FormulaGrader(answers=bad, variables=V, numbered_vars=['a'], debug=d), V + ['a_{0}', 'a_{12}'], ident),
+        ('Brace/numerical-comparer', lambda d: NumericalGrader(answers=bad, user_constants={'c_{1}': 2.0, 'T_{ab}': 3.0}, debug=d),
+         ['c_{1}', 'T_{ab}'], ident),
+        ('Brace/matrix-parallel', lambda d: MatrixGrader(answers='[1,2]', variables=V, numbered_vars=['a'], max_array_dim=2, debug=d),
+         V + ['a_{0}'], lambda t: '(%s)||[1,2]' % t),
+        ('Brace/matrix-comparer', lambda d: MatrixGrader(answers={'comparer': bad_comparer, 'comparer_params': ['[1,2]']}, variables=V,
+                                                         numbered_vars=['a'], max_array_dim=2, debug=d), V + ['a_{0}'], ident),
+        ('Brace/sampler', lambda d: FormulaGrader(answers='1', variables=V, numbered_vars=['a'], sample_from={'y': BadSampler()}, debug=d),
+         V + ['a_{0}'], ident),
+        ('Brace/userfunc', lambda d: FormulaGrader(answers='1', variables=V, numbered_vars=['a'], user_functions=F, debug=d),
+         V + ['a_{1}'], lambda t: 'rstr(1)+%s' % t),
+        ('Brace/interval', lambda d: IntervalGrader(answers='[1,2)', subgrader=FormulaGrader(variables=V, user_functions=F), debug=d),
+         V, lambda t: '[rstr(1)*%s,2)' % t),
+        ('Brace/sum', lambda d: SumGrader(answers={'lower': '1', 'upper': '3', 'summand': 'n', 'summation_variable': 'n'},
+                                          input_positions={'summand': 1}, variables=V, user_functions=F, debug=d), V, lambda t: 'rstr(1)*%s' % t),
+        ('Brace/singlelist', lambda d: SingleListGrader(answers=['1', '2'], subgrader=FormulaGrader(variables=V, user_functions=F), debug=d),
+         V, lambda t: 'rstr(%s),T_{ab}' % t),
+        ('Brace/integral', lambda d: IntegralGrader(answers={'lower': '0', 'upper': '1', 'integrand': 'x', 'integration_variable': 'x'},
+                                                    input_positions={'integrand': 1}, variables=V, debug=d), V, ident),
+        ('Brace/string-regex', lambda d: StringGrader(answers='a', validation_pattern='(', debug=d), None, ident),
+        ('Echo', dict((n, f) for n, m, f, c in zoo())['Echo'], None, lambda t: 'boom ' + t),
+    ]
+    _BRACE_ZOO = Z
+    return Z
+
+
+def brace_formulas(rng, names, extra):
+    a = names[0]
+    b = names[1 % len(names)]
+    out = [a, b, names[-1], '%s*%s' % (a, b), '%s^2' % a, '%s+%s' % (names[-1], a), '-%s/%s' % (a, b), '2*%s' % a, '%s^%s' % (a, b),
+           '(%s)' % a, 'sin(%s)' % b]
+    for _ in range(extra):
+        k = rng.randint(1, 4)
+        out.append(rng.choice(['', '-']) + rng.choice('*+/-').join(rng.choice(names) for _ in range(k)))
+    return out
+
+
+def run_braces(ctx, res, rng):
+    """unanticipated failures on submissions full of format-string metacharacters: the generic error must name them verbatim"""
+    quick = ctx['tier'] == 'quick'
+    picked = []
+    outcomes = {}
+    n_generic = 0
+    for name, factory, names, wrap in brace_zoo():
+        st, g = core.guarded(factory, False)
+        if st != 'ret':
+            res.witnesses.append({'key': 'construct:' + name, 'kind': 'construct', 'grader': name, 'what': 'could not be built: %r' % (g,)})
+            continue
+        texts = [wrap(t) for t in META_TEXTS] if names is None else \
+            [wrap(f) for f in brace_formulas(rng, names, 4 if quick else 40)] + [wrap(t) for t in META_TEXTS[:6]]
+        seen_sig = {}
+        for i, t in enumerate(texts):
+            rec = observe(g, t, seed=ctx['seed'] + i, tag=(name, t, None))
+            res.oracle_evals += 1
+            what = judge(BOTH if name in ('Echo', 'Brace/sum', 'Brace/integral') else ITEM, False, None, t, rec)
+            if what:
+                res.witnesses.append({'key': 'braces:%s:%r' % (name, t), 'kind': 'call', 'grader': name, 'input': t, 'attempt': None, 'what': what})
+            k = type(rec['val']).__name__ if rec['status'] == 'exc' else rec['status']
+            generic = rec['status'] == 'exc' and rec['raw_status'] == 'exc' and type(rec['raw_exc']).__module__.split('.')[0] != 'mitxgraders'
+            n_generic += bool(generic)
+            outcomes[k] = outcomes.get(k, 0) + 1
+            if generic:
+                res.nontrivial.add(('braces', name, t))
+            sig = (k, generic)
+            if seen_sig.get(sig, 0) < (3 if quick else 12) and rec['status'] != 'timeout':
+                seen_sig[sig] = seen_sig.get(sig, 0) + 1
+                mode = 2 if name in ('Echo', 'Brace/sum', 'Brace/integral') else 0
+                picked.append((mode, False, False, None, t, t, rec, name))
+    res.distribution['brace_stream_outcomes'] = outcomes
+    res.distribution['brace_stream_unanticipated_failures'] = n_generic
+    pool_reset()
+    terms, metas = [], []
+    for args in picked:
+        add_call_case(terms, metas, *args)
+    coq_eval(res, 'c02_brace', 'call_case', terms, metas, 'nat * bool * bool * option Z * pyval * raw * fin', 'call', 2)
+
+
 def zoo_entry(name):
+    if name.startswith('Brace/'):
+        for n, f, names, wrap in brace_zoo():
+            if n == name:
+                return (BOTH if n in ('Brace/sum', 'Brace/integral') else ITEM), f, False
     for n, m, f, c in zoo():
         if n == name:
             return m, f, c
@@ -921,14 +1046,11 @@ def check_anticipated(row):
         return 'expected %s, got %s: %s' % (cls, type(val).__name__, str(val)[:200])
     if msg is GENERIC:
         texts = [inp] if isinstance(inp, str) else list(inp)
-        got, pos = str(val), 0
+        got = str(val)
         if not got.startswith('Invalid Input: Could not check input'):
             return 'generic error text is %r' % got[:200]
-        for t in texts:
-            k = got.find(t, pos)
-            if k < 0:
-                return 'generic error does not name the submitted text %r' % t[:80]
-            pos = k + len(t)
+        if not names_submission(got, texts):
+            return 'generic error does not name the submission %r verbatim: %r' % ([t[:80] for t in texts], got[:300])
     elif msg is UNBALANCED:
         got = str(val)
         if not (got.startswith('Invalid Input:') and got.endswith('</code>') and '<mark>' in got and '\n' not in got):
@@ -1921,6 +2043,7 @@ def _run(ctx):
     run_int_towers(ctx, res, rng)
     phases['integer-towers'] = round(time.time() - t0, 1)
     t0 = time.time()
+    run_braces(ctx, res, rng)
     run_attempts(ctx, res, rng)
     # history: everything above were the perturbers; now the probes and the anticipated-problem table again
     compare_probes(res, probes_first, probe_outcomes(ctx), 'all streams')
